@@ -35,7 +35,7 @@ package browse
 //@   loop 2 invariant len(u.Path) >= 1 && u.Path[0] == '/' && u.Path[len(u.Path)-1] != '/'
 //@   loop 2 decreases len(u.Path)
 
-//@ unit directory_listing props=C02 filter=`browse\.directoryListing$`
+//@ unit directory_listing frames=on props=C02 filter=`browse\.directoryListing$`
 //@ extern invoke:(io/fs.FileInfo).Name
 //@   pure
 //@ extern invoke:(io/fs.FileInfo).IsDir
